@@ -8,6 +8,7 @@ package plush
 // ---- C06: operator tables ---------------------------------------------------
 
 //@ func (c *compiler) intsOperator
+//@ ensures ufn: is(result, "*userFunction") ==> pay(result) != 0
 //@ arith wrap
 //@ ensures add: op == "+" ==> err == nil && result == box(wrap(l + r))
 //@ ensures sub: op == "-" ==> err == nil && result == box(wrap(l - r))
@@ -36,12 +37,14 @@ package plush
 //@ assigns nothing
 
 //@ func (c *compiler) nilsOperator
+//@ ensures ufn: is(result, "*userFunction") ==> pay(result) != 0
 //@ ensures ne: op == "!=" ==> err == nil && result == box(l != r)
 //@ ensures eq: op == "==" ==> err == nil && result == box(l == r)
 //@ ensures other: op != "!=" && op != "==" ==> err != nil
 //@ assigns nothing
 
 //@ func (c *compiler) boolsOperator
+//@ ensures ufn: is(result, "*userFunction") ==> pay(result) != 0
 //@ ensures and: op == "&&" ==> err == nil && result == box(truthy(l) && truthy(r))
 //@ ensures or: op == "||" ==> err == nil && result == box(truthy(l) || truthy(r))
 //@ ensures ne: op == "!=" ==> err == nil && result == box(truthy(l) != truthy(r))
@@ -50,6 +53,7 @@ package plush
 //@ assigns nothing
 
 //@ func (c *compiler) floatsOperator
+//@ ensures ufn: is(result, "*userFunction") ==> pay(result) != 0
 //@ ensures add: op == "+" ==> err == nil && result == box(fadd(l, r))
 //@ ensures sub: op == "-" ==> err == nil && result == box(fsub(l, r))
 //@ ensures mul: op == "*" ==> err == nil && result == box(fmul(l, r))
@@ -65,6 +69,7 @@ package plush
 //@ assigns nothing
 
 //@ func (c *compiler) stringsOperator
+//@ ensures ufn: is(result, "*userFunction") ==> pay(result) != 0
 //@ ensures cat: op == "+" ==> err == nil && result == box(l + sprint(r))
 //@ ensures lt: op == "<" ==> err == nil && result == box(strlt(l, sprint(r)))
 //@ ensures gt: op == ">" ==> err == nil && result == box(strlt(sprint(r), l))
@@ -117,3 +122,274 @@ package plush
 //@ ensures shape: is(result, "*Context") && fresh(unbox(result, "*Context")) && unbox(result, "*Context").outer == c
 //@ ensures ownmap: fresh(unbox(result, "*Context").data)
 //@ assigns fresh
+
+// ---- evaluator: scope restoration (C09), error propagation (C05), frames (C13), safety (C04) ----
+
+//@ func (c *compiler) evalExpression
+//@ requires wf: node == nil || pay(node) != 0
+//@ requires cctx: cctx(c)
+//@ ensures restored: c.ctx == old(c.ctx) && (c.curStmt == nil || pay(c.curStmt) != 0)
+//@ ensures ufn: is(result, "*userFunction") ==> pay(result) != 0
+//@ errprop
+//@ assigns c.ctx, c.curStmt, mapsof("map[string]interface{}"), fresh
+
+//@ func (c *compiler) evalAssignExpression
+//@ ensures ufn: is(result, "*userFunction") ==> pay(result) != 0
+//@ requires node != nil
+//@ requires cctx: cctx(c)
+//@ ensures restored: c.ctx == old(c.ctx) && (c.curStmt == nil || pay(c.curStmt) != 0)
+//@ errprop
+//@ assigns c.ctx, c.curStmt, mapsof("map[string]interface{}"), fresh
+
+//@ func (c *compiler) evalLetStatement
+//@ requires node != nil
+//@ requires cctx: cctx(c)
+//@ ensures restored: c.ctx == old(c.ctx) && (c.curStmt == nil || pay(c.curStmt) != 0)
+//@ errprop
+//@ assigns c.ctx, c.curStmt, mapsof("map[string]interface{}"), fresh
+
+//@ func (c *compiler) evalFunctionLiteral
+//@ ensures ufn: is(result, "*userFunction") ==> pay(result) != 0
+//@ requires node != nil
+//@ ensures ok: err == nil && is(result, "*userFunction")
+//@ ensures fields: unbox(result, "*userFunction").Parameters == node.Parameters && unbox(result, "*userFunction").Block == node.Block
+//@ assigns fresh
+
+//@ func (c *compiler) evalPrefixExpression
+//@ ensures ufn: is(result, "*userFunction") ==> pay(result) != 0
+//@ requires node != nil
+//@ requires cctx: cctx(c)
+//@ ensures restored: c.ctx == old(c.ctx) && (c.curStmt == nil || pay(c.curStmt) != 0)
+//@ errprop tolerate is(e, "*ErrUnknownIdentifier") && is(node.Right, "*ast.Identifier")
+//@ assigns c.ctx, c.curStmt, mapsof("map[string]interface{}"), fresh
+
+//@ func (c *compiler) evalIfExpression
+//@ ensures ufn: is(result, "*userFunction") ==> pay(result) != 0
+//@ requires node != nil
+//@ requires cctx: cctx(c)
+//@ ensures restored: c.ctx == old(c.ctx) && (c.curStmt == nil || pay(c.curStmt) != 0)
+//@ errprop tolerate is(e, "*ErrUnknownIdentifier") && is(node.Condition, "*ast.Identifier")
+//@ assigns c.ctx, c.curStmt, mapsof("map[string]interface{}"), fresh
+
+//@ func (c *compiler) evalElseAndElseIfExpressions
+//@ ensures ufn: is(result, "*userFunction") ==> pay(result) != 0
+//@ requires node != nil
+//@ requires cctx: cctx(c)
+//@ ensures restored: c.ctx == old(c.ctx) && (c.curStmt == nil || pay(c.curStmt) != 0)
+//@ errprop tolerate is(e, "*ErrUnknownIdentifier")
+//@ assigns c.ctx, c.curStmt, mapsof("map[string]interface{}"), fresh
+//@ loop 1: invariant c.ctx == old(c.ctx)
+
+//@ func (c *compiler) evalReturnStatement
+//@ requires node != nil
+//@ requires cctx: cctx(c)
+//@ ensures restored: c.ctx == old(c.ctx) && (c.curStmt == nil || pay(c.curStmt) != 0)
+//@ errprop
+//@ assigns c.ctx, c.curStmt, mapsof("map[string]interface{}"), fresh
+
+//@ func (c *compiler) evalStatement
+//@ requires wf: node != nil && pay(node) != 0
+//@ requires cctx: cctx(c)
+//@ ensures restored: c.ctx == old(c.ctx) && (c.curStmt == nil || pay(c.curStmt) != 0)
+//@ errprop
+//@ assigns c.ctx, c.curStmt, mapsof("map[string]interface{}"), fresh
+
+//@ func (c *compiler) evalBlockStatement
+//@ ensures ufn: is(result, "*userFunction") ==> pay(result) != 0
+//@ requires node != nil
+//@ requires cctx: cctx(c)
+//@ ensures restored: c.ctx == old(c.ctx) && (c.curStmt == nil || pay(c.curStmt) != 0)
+//@ errprop
+//@ assigns c.ctx, c.curStmt, mapsof("map[string]interface{}"), fresh
+//@ loop 1: invariant c.ctx == old(c.ctx)
+
+//@ func (c *compiler) evalArrayLiteral
+//@ ensures ufn: is(result, "*userFunction") ==> pay(result) != 0
+//@ requires node != nil
+//@ requires cctx: cctx(c)
+//@ ensures restored: c.ctx == old(c.ctx) && (c.curStmt == nil || pay(c.curStmt) != 0)
+//@ errprop
+//@ assigns c.ctx, c.curStmt, mapsof("map[string]interface{}"), fresh
+//@ loop 1: invariant c.ctx == old(c.ctx)
+
+//@ func (c *compiler) evalHashLiteral
+//@ ensures ufn: is(result, "*userFunction") ==> pay(result) != 0
+//@ requires node != nil
+//@ requires cctx: cctx(c)
+//@ ensures restored: c.ctx == old(c.ctx) && (c.curStmt == nil || pay(c.curStmt) != 0)
+//@ errprop
+//@ assigns c.ctx, c.curStmt, mapsof("map[string]interface{}"), fresh
+//@ loop 1: invariant c.ctx == old(c.ctx)
+
+//@ pred cctx(c *compiler) = is(c.ctx, "*Context") && pay(c.ctx) != 0 && (c.curStmt == nil || pay(c.curStmt) != 0)
+
+//@ typeinv (f *userFunction) = f.Block != nil && forall i int :: 0 <= i && i < len(f.Parameters) ==> f.Parameters[i] != nil
+
+//@ func (c *compiler) evalUserFunction
+//@ ensures ufn: is(result, "*userFunction") ==> pay(result) != 0
+//@ requires node != nil
+//@ requires wfargs: forall i int :: 0 <= i && i < len(args) ==> (args[i] == nil || pay(args[i]) != 0)
+//@ requires cctx: cctx(c)
+//@ ensures restored: c.ctx == old(c.ctx) && (c.curStmt == nil || pay(c.curStmt) != 0)
+//@ errprop
+//@ assigns c.ctx, c.curStmt, mapsof("map[string]interface{}"), fresh
+//@ loop 1: invariant cctx(c) && octx == old(c.ctx)
+
+//@ func (c *compiler) evalIndexExpression
+//@ ensures ufn: is(result, "*userFunction") ==> pay(result) != 0
+//@ requires node != nil
+//@ requires cctx: cctx(c)
+//@ ensures restored: c.ctx == old(c.ctx) && (c.curStmt == nil || pay(c.curStmt) != 0)
+//@ errprop
+//@ assigns c.ctx, c.curStmt, mapsof("map[string]interface{}"), fresh
+
+//@ func (c *compiler) evalUpdateIndex
+//@ errprop
+//@ assigns mapsof("map[string]interface{}")
+
+//@ func (c *compiler) evalAccessIndex
+//@ ensures ufn: is(result, "*userFunction") ==> pay(result) != 0
+//@ requires node != nil
+//@ requires cctx: cctx(c)
+//@ ensures restored: c.ctx == old(c.ctx) && (c.curStmt == nil || pay(c.curStmt) != 0)
+//@ errprop
+//@ assigns c.ctx, c.curStmt, mapsof("map[string]interface{}"), fresh
+
+//@ func (c *compiler) evalIndexCallee
+//@ ensures ufn: is(result, "*userFunction") ==> pay(result) != 0
+//@ requires node != nil && nnx(node.Callee)
+//@ requires rv: rvValid(rv) && rvCanIface(rv)
+//@ loop 1: invariant cctx(c) && octx == unbox(old(c.ctx), "*Context")
+//@ loop 2: invariant len(ggg) >= 1 && cctx(c) && octx == unbox(old(c.ctx), "*Context")
+//@ requires cctx: cctx(c)
+//@ ensures restored: c.ctx == old(c.ctx) && (c.curStmt == nil || pay(c.curStmt) != 0)
+//@ errprop
+//@ assigns c.ctx, c.curStmt, mapsof("map[string]interface{}"), fresh
+
+//@ func (c *compiler) evalIdentifier
+//@ ensures ufn: is(result, "*userFunction") ==> pay(result) != 0
+//@ requires node != nil
+//@ requires cctx: cctx(c)
+//@ ensures restored: c.ctx == old(c.ctx) && (c.curStmt == nil || pay(c.curStmt) != 0)
+//@ errprop
+//@ assigns c.ctx, c.curStmt, mapsof("map[string]interface{}"), fresh
+
+//@ func (c *compiler) evalInfixExpression
+//@ ensures ufn: is(result, "*userFunction") ==> pay(result) != 0
+//@ requires node != nil
+//@ requires cctx: cctx(c)
+//@ ensures restored: c.ctx == old(c.ctx) && (c.curStmt == nil || pay(c.curStmt) != 0)
+//@ errprop tolerate is(e, "*ErrUnknownIdentifier") && (node.Operator == "==" || node.Operator == "!=" || node.Operator == "&&" || node.Operator == "||") && (is(node.Left, "*ast.Identifier") || is(node.Right, "*ast.Identifier"))
+//@ assigns c.ctx, c.curStmt, mapsof("map[string]interface{}"), fresh
+
+//@ func (c *compiler) arrayOperator
+//@ ensures ufn: is(result, "*userFunction") ==> pay(result) != 0
+//@ requires l != nil && r != nil && (kindof(dyn(l)) == 23 || kindof(dyn(l)) == 17)
+//@ errprop
+//@ assigns nothing
+
+//@ func (c *compiler) evalCallExpression
+//@ ensures ufn: is(result, "*userFunction") ==> pay(result) != 0
+//@ requires node != nil
+//@ loop 1: invariant cctx(c) && c.ctx == old(c.ctx) && len(args) == ridx1 && ridx1 <= len(node.Arguments) && rt != 0 && kindof(rt) == 19 && rtNumIn == numIn(rt) && !isVariadic(rt) && len(node.Arguments) <= rtNumIn
+//@ loop 1: invariant argsok: forall j int :: 0 <= j && j < len(args) ==> rvValid(args[j]) && assignable(rvType(args[j]), inType(rt, j))
+//@ loop 2: invariant cctx(c) && c.ctx == old(c.ctx) && len(args) == pos && 0 <= pos && pos <= rtNumIn-1 && rt != 0 && kindof(rt) == 19 && rtNumIn == numIn(rt) && isVariadic(rt) && nodeArgsLen == len(nodeArgs) && nodeArgsLen >= rtNumIn-1 && nodeArgs == node.Arguments
+//@ loop 2: invariant argsok: forall j int :: 0 <= j && j < len(args) ==> rvValid(args[j]) && assignable(rvType(args[j]), inType(rt, j))
+//@ loop 3: invariant cctx(c) && c.ctx == old(c.ctx) && len(args) == pos && rtNumIn-1 <= pos && pos <= nodeArgsLen && rt != 0 && kindof(rt) == 19 && rtNumIn == numIn(rt) && isVariadic(rt) && nodeArgsLen == len(nodeArgs) && nodeArgs == node.Arguments && expectedT == telem(inType(rt, rtNumIn-1))
+//@ loop 3: invariant argsok: forall j int :: 0 <= j && j < len(args) && j < rtNumIn-1 ==> rvValid(args[j]) && assignable(rvType(args[j]), inType(rt, j))
+//@ loop 3: invariant varok: forall j int :: rtNumIn-1 <= j && j < len(args) ==> rvValid(args[j]) && assignable(rvType(args[j]), expectedT)
+//@ loop 4: invariant cctx(c) && octx == unbox(old(c.ctx), "*Context")
+//@ requires cctx: cctx(c)
+//@ ensures restored: c.ctx == old(c.ctx) && (c.curStmt == nil || pay(c.curStmt) != 0)
+//@ errprop
+//@ assigns c.ctx, c.curStmt, mapsof("map[string]interface{}"), fresh
+
+//@ func (c *compiler) evalForExpression
+//@ loop 1: invariant cctx(c) && octx == unbox(old(c.ctx), "*Context")
+//@ loop 2: invariant cctx(c) && octx == unbox(old(c.ctx), "*Context") && 0 <= i && rvKind(riter) == 21 && rvCanIface(riter)
+//@ loop 2: invariant keysok: forall j int :: 0 <= j && j < len(keys) ==> rvValid(keys[j]) && rvCanIface(keys[j]) && rvType(keys[j]) == tkey(rvType(riter))
+//@ loop 3: invariant cctx(c) && octx == unbox(old(c.ctx), "*Context") && 0 <= i && (rvKind(riter) == 23 || rvKind(riter) == 17) && rvCanIface(riter)
+//@ loop 4: invariant cctx(c) && octx == unbox(old(c.ctx), "*Context")
+//@ ensures ufn: is(result, "*userFunction") ==> pay(result) != 0
+//@ requires node != nil
+//@ requires cctx: cctx(c)
+//@ ensures restored: c.ctx == old(c.ctx) && (c.curStmt == nil || pay(c.curStmt) != 0)
+//@ errprop
+//@ assigns c.ctx, c.curStmt, mapsof("map[string]interface{}"), fresh
+
+//@ iface plush.Iterator.Next(it) r
+//@ assigns mapsof("map[string]interface{}"), fresh
+
+// ---- top level: compile / write / Exec / Render / helper context ----------------------
+
+//@ func unsafeGetBytes
+//@ trusted
+//@ ensures len(result) == len(s)
+//@ assigns nothing
+
+//@ func (c *compiler) write
+//@ requires bb != nil
+//@ requires cctx: cctx(c)
+//@ ensures restored: c.ctx == old(c.ctx) && (c.curStmt == nil || pay(c.curStmt) != 0)
+//@ assigns nothing
+//@ loop 1: invariant true
+//@ loop 2: invariant true
+//@ loop 3: invariant true
+
+//@ func (c *compiler) compile
+//@ requires cctx: cctx(c)
+//@ requires prog: c.program != nil
+//@ ensures restored: c.ctx == old(c.ctx) && (c.curStmt == nil || pay(c.curStmt) != 0)
+//@ ensures empty: err != nil ==> result == ""
+//@ errprop
+//@ assigns c.ctx, c.curStmt, mapsof("map[string]interface{}"), fresh
+//@ loop 1: invariant cctx(c) && c.ctx == old(c.ctx) && c.program == old(c.program)
+
+//@ func (t *Template) Parse
+//@ ensures ok: err == nil ==> t.program != nil
+//@ ensures same: old(t.program) != nil ==> t.program == old(t.program)
+//@ errprop
+//@ assigns t.program, fresh
+
+//@ func (t *Template) Exec
+//@ requires cctx: is(ctx, "*Context") && pay(ctx) != 0
+//@ ensures empty: err != nil ==> result == ""
+//@ errprop
+//@ assigns t.program, mapsof("map[string]interface{}"), fresh
+
+//@ func (t *Template) Clone
+//@ ensures shares: fresh(result) && result.program == t.program && result.Input == t.Input
+//@ assigns fresh
+
+//@ func NewTemplate
+//@ ensures ok: result != nil && result.Input == input && (err == nil ==> result.program != nil)
+//@ errprop
+//@ assigns fresh
+
+//@ func (h HelperContext) BlockWith
+//@ requires hc: !(is(hc, "*Context") && pay(hc) == 0)
+//@ requires comp: h.compiler != nil && cctx(h.compiler)
+//@ ensures restored: h.compiler.ctx == old(h.compiler.ctx) && (h.compiler.curStmt == nil || pay(h.compiler.curStmt) != 0)
+//@ ensures empty: err != nil ==> result == ""
+//@ errprop
+//@ assigns h.compiler.ctx, h.compiler.curStmt, mapsof("map[string]interface{}"), fresh
+
+//@ func (h HelperContext) Block
+//@ requires comp: h.compiler != nil && cctx(h.compiler)
+//@ ensures restored: h.compiler.ctx == old(h.compiler.ctx) && (h.compiler.curStmt == nil || pay(h.compiler.curStmt) != 0)
+//@ ensures empty: err != nil ==> result == ""
+//@ errprop
+//@ assigns h.compiler.ctx, h.compiler.curStmt, mapsof("map[string]interface{}"), fresh
+
+//@ func (h HelperContext) HasBlock
+//@ ensures def: result == (h.block != nil)
+//@ assigns nothing
+
+// User-supplied code reached through interfaces (assumption U1: returns normally, does not touch
+// evaluator state except through the HelperContext API).
+//@ iface fmt.Stringer.String(x) r
+//@ assigns nothing
+//@ iface plush.HTMLer.HTML(x) r
+//@ assigns nothing
+//@ iface plush.interfaceable.Interface(x) r
+//@ assigns nothing
